@@ -631,6 +631,16 @@ pub fn c14_market_part(out: &mut Outcome, t: bool) {
     absorb(out, "Market<4>: four ticks", 4, 3, a4.depth, run_market::<4, 3>(&a4), "market");
 }
 
+/// C12, market level: on/off-grid creations through the market, reads at chosen moments and
+/// mutations through get_order_book_mut: every all-asset query (published levels included) must
+/// equal the stand-alone books' after every operation
+pub fn c12_market_part(out: &mut Outcome, t: bool) {
+    let c = MCfg { depth: if t { 5 } else { 4 }, reload_modes: vec![], events: false, toggles: false, modify: false, create_place: false, offgrid: true, two_vols: false, asset_toggles: false, zero_vols: false, observe_and_book_mut: true };
+    absorb(out, "Market<2,3> ticks 1,2: on/off-grid creations, reading as an operation, get_order_book_mut", 2, 3, c.depth, run_market::<2, 3>(&c), "market");
+    let c = MCfg { depth: if t { 4 } else { 3 }, reload_modes: vec![], events: true, toggles: false, modify: true, create_place: true, offgrid: true, two_vols: false, asset_toggles: false, zero_vols: false, observe_and_book_mut: true };
+    absorb(out, "Market<3,2> ticks 1,2,3: + modify, create/place, event route", 3, 2, c.depth, run_market::<3, 2>(&c), "market");
+}
+
 /// C13, market level: market-wide and per-asset trading toggles against stand-alone books
 pub fn c13_market_part(out: &mut Outcome, t: bool) {
     let c = MCfg { depth: if t { 5 } else { 4 }, reload_modes: vec![], events: false, toggles: false, modify: true, create_place: false, offgrid: false, two_vols: false, asset_toggles: true, zero_vols: false, observe_and_book_mut: false };
